@@ -232,7 +232,7 @@ func (r *Report) finish(verifDir string, chk *PropCheck, start time.Time, seed i
 		out = append(out, fmt.Sprintf("VIOLATION property=%s replay=%s", r.Prop, path))
 	}
 	for i, k := range known {
-		if k.Property == r.Prop && !usedKnown[i] {
+		if k.Property == r.Prop && !usedKnown[i] && !(strings.HasPrefix(k.Key, " [") && r.Tier == "quick") {
 			r.Notes = append(r.Notes, fmt.Sprintf("known finding %s %s no longer reported (repaired or construct changed); the entry can be turned into a fixed: line", k.Rule, k.Key))
 		}
 	}
